@@ -421,8 +421,13 @@ class RequestParam(ClientAuthnMethod):
             else:
                 _context.jti_db[_key] = utc_time_sans_frac()
 
-        request[verified_claim_name("client_assertion")] = _jwt
         client_id = kwargs.get("client_id") or _jwt["iss"]
+        # The request object only authenticates the client that issued it
+        _claimed = request.get("client_id")
+        if _claimed and _claimed != client_id:
+            raise ClientAuthenticationError("The request object was issued by another client")
+
+        request[verified_claim_name("client_assertion")] = _jwt
 
         return {"client_id": client_id, "jwt": _jwt}
 
